@@ -62,6 +62,33 @@ def random_scope(rng, n):
             x = rng.choice([l[-1], l[-1] + 1, l[0], l[0] - 1, rng.choice(pool), rng.choice(pool) + 1e-9, l[k // 2]])
             yield l, x
             continue
+        if c % 25 in (3, 12, 21):
+            # the helpers take ANY sorted list and ANY probe that compares with its elements: datetimes, strings, tuples, big ints, Fractions
+            from datetime import datetime, timedelta, timezone
+            from fractions import Fraction
+            k = rng.randrange(0, 12)
+            kind = ["datetime", "str", "tuple", "bigint", "fraction", "naive datetime"][c % 6]
+            if kind == "datetime":
+                pool = [datetime(2020, 1, 1, tzinfo=timezone.utc) + timedelta(seconds=rng.randrange(0, 6), microseconds=rng.choice([0, 1, 999999])) for _ in range(max(1, k // 2 + 1))]
+                mk = lambda: rng.choice(pool + [pool[0] - timedelta(days=1), pool[-1] + timedelta(days=400 * 365)])
+            elif kind == "naive datetime":
+                pool = [datetime(1999, 12, 31, 23, 59, 59) + timedelta(seconds=rng.randrange(0, 4)) for _ in range(max(1, k // 2 + 1))]
+                mk = lambda: rng.choice(pool + [datetime(1, 1, 1), datetime(9999, 12, 31)])
+            elif kind == "str":
+                pool = [rng.choice(["", "a", "ab", "b", "B", "\u00e9", "a\n"]) for _ in range(max(1, k // 2 + 1))]
+                mk = lambda: rng.choice(pool + ["", "zz", "aa"])
+            elif kind == "tuple":
+                pool = [(rng.randrange(3), rng.choice(["x", "y"])) for _ in range(max(1, k // 2 + 1))]
+                mk = lambda: rng.choice(pool + [(0, ""), (9, "z"), (1,)])
+            elif kind == "bigint":
+                pool = [rng.choice([0, 1, -1, 2 ** 63, 2 ** 64 + 1, -2 ** 70, 10 ** 30]) for _ in range(max(1, k // 2 + 1))]
+                mk = lambda: rng.choice(pool + [2 ** 63 - 1, 10 ** 30 + 1, -10 ** 40])
+            else:
+                pool = [Fraction(rng.randrange(-5, 6), rng.randrange(1, 4)) for _ in range(max(1, k // 2 + 1))]
+                mk = lambda: rng.choice(pool + [Fraction(1, 7), 3, -8])
+            l = sorted(rng.choice(pool) for _ in range(k))
+            yield l, mk()
+            continue
         if c % 25 == 16:
             # runs of exactly 7 / 8 / 9 / 16 / 17 equal elements inside a longer list, probed at the run's value and next to it
             run = rng.choice([7, 8, 9, 15, 16, 17, 32, 33])
